@@ -124,18 +124,27 @@ func templateNamespaces(t interface{}) []string {
 func PipelineStepOutputs(stmts []*gripql.GraphStatement) map[string][]string {
 
 	steps := PipelineSteps(stmts)
-	asMap := PipelineAsSteps(stmts)
 	onLast := true
 	out := map[string][]string{}
 	for i := len(stmts) - 1; i >= 0; i-- {
 		gs := stmts[i]
+		// markStep finds the step whose element mark `name` holds when statement i
+		// runs: the closest preceding as(name) (a name can be marked more than once)
+		markStep := func(name string) (string, bool) {
+			for j := i - 1; j >= 0; j-- {
+				if as, ok := stmts[j].GetStatement().(*gripql.GraphStatement_As); ok && as.As == name {
+					return steps[j], true
+				}
+			}
+			return "", false
+		}
 		// needData records that the data of the current element (namespace
 		// "__current__") or of a marked element is read by statement i
 		needData := func(namespaces []string) {
 			for _, n := range namespaces {
 				if n == jsonpath.Current {
 					out[steps[i]] = []string{"*"}
-				} else if a, ok := asMap[n]; ok {
+				} else if a, ok := markStep(n); ok {
 					out[a] = []string{"*"}
 				}
 			}
@@ -156,7 +165,7 @@ func PipelineStepOutputs(stmts []*gripql.GraphStatement) map[string][]string {
 				if n == "__current__" {
 					out[steps[i]] = []string{"*"}
 				}
-				if a, ok := asMap[n]; ok {
+				if a, ok := markStep(n); ok {
 					out[a] = []string{"*"}
 				}
 			}
